@@ -884,12 +884,10 @@ func Subst(t *Term, m map[*Atom]*Term) *Term {
 			tm := Const(x.c)
 			for _, f := range x.m {
 				var at *Term
-				if f.A.Kind == "sym" {
-					if r, ok := m[f.A]; ok {
-						at = r
-					} else {
-						at = fromAtom(f.A)
-					}
+				if r, ok := m[f.A]; ok {
+					at = r // whole atoms (symbols or applications such as elem(v, 0)) may be replaced
+				} else if f.A.Kind == "sym" {
+					at = fromAtom(f.A)
 				} else {
 					args := make([]*Term, len(f.A.Args))
 					for i, a := range f.A.Args {
@@ -916,4 +914,79 @@ func ParseAtomString(key string) *Term {
 		return fromAtom(a)
 	}
 	return Sym(key)
+}
+
+// LogExpand rewrites t into a normal form in which powers and logarithms of products are expanded:
+//   pow(u, e)  ->  exp(e * log u),      log(c * prod a_i^k_i / (d * prod b_j^m_j))  ->  log(c/d) + sum k_i log a_i - sum m_j log b_j
+// (for single-monomial numerator and denominator). The rewriting is valid where all factors are positive; it is used
+// to compare two expressions of a density on its support, where the code and the reference may group factors differently.
+func LogExpand(t *Term) *Term {
+	var expandAtom func(a *Atom) *Term
+	var expandTerm func(t *Term) *Term
+	logMono := func(p Poly) (*Term, bool) {
+		if len(p) != 1 {
+			return nil, false
+		}
+		for _, x := range p {
+			s := Zero()
+			if x.c.Sign() <= 0 {
+				return nil, false
+			}
+			if x.c.Cmp(big.NewRat(1, 1)) != 0 {
+				s = fromAtom(intern("log", "", []*Term{Const(x.c)}))
+			}
+			for _, f := range x.m {
+				var la *Term
+				if f.A.Kind == "exp" {
+					la = expandTerm(f.A.Args[0])
+				} else {
+					la = fromAtom(intern("log", "", []*Term{expandAtom(f.A)}))
+				}
+				s = Add(s, Mul(Int(int64(f.E)), la))
+			}
+			return s, true
+		}
+		return nil, false
+	}
+	logExpanded := func(u *Term) *Term {
+		u = expandTerm(u)
+		if n, ok := logMono(u.N); ok {
+			if d, ok := logMono(u.D); ok {
+				return Sub(n, d)
+			}
+		}
+		return Fn("log", u)
+	}
+	expandAtom = func(a *Atom) *Term {
+		switch a.Kind {
+		case "sym":
+			return fromAtom(a)
+		case "pow":
+			return Fn("exp", Mul(expandTerm(a.Args[1]), logExpanded(a.Args[0])))
+		case "log":
+			return logExpanded(a.Args[0])
+		case "sum":
+			return fromAtom(a)
+		}
+		args := make([]*Term, len(a.Args))
+		for i, x := range a.Args {
+			args[i] = expandTerm(x)
+		}
+		return Fn(a.Kind, args...)
+	}
+	expandPoly := func(p Poly) *Term {
+		res := Zero()
+		for _, x := range p.sorted() {
+			tm := Const(x.c)
+			for _, f := range x.m {
+				tm = Mul(tm, PowInt(expandAtom(f.A), f.E))
+			}
+			res = Add(res, tm)
+		}
+		return res
+	}
+	expandTerm = func(t *Term) *Term {
+		return Div(expandPoly(t.N), expandPoly(t.D))
+	}
+	return expandTerm(t)
 }
